@@ -284,7 +284,7 @@ impl Prop for C10 {
                     gen: enum_scripts,
                 },
             },
-            Stage { name: "random", kind: StageKind::Random { strategy: strat, cases: tier.pick(400_000, 5_000_000) } },
+            Stage { name: "random", kind: StageKind::Random { strategy: strat, cases: tier.pick(1_500_000, 8_000_000) } },
         ]
     }
     fn check(case: &ScriptCase, obs: &mut Obs) -> Verdict {
